@@ -13,13 +13,13 @@ LEVEL = "proof"
 EXTRA_PROPS = ["QuantemModel.Props.C16Ext"]   # growth 6: propagator stacks, composed / periodic integer shifts, translation-operator options
 MANIFEST_ENTRY = {
     "category": "proof",
-    "text": "Lean 4 theorems over an executable model (generic numeric carrier, defining DFT sums) of the ptychography forward-model operators: index_add scatter is the exact adjoint of patch gathering for every index list (repeats, wrap) - also for the model WITH torch's argument checks and the partial writes of index_add_ before an IndexError, in every history of accepted and rejected calls (adjoint_checked, adjoint_history, rejected_calls_erasable, scatter_checked_ok_iff); phase ramps and Fresnel kernels have unit modulus, compose additively and invert; Fourier shift and propagation preserve total intensity (Parseval for the modelled DFT, proved from root-of-unity orthogonality); integer shifts equal circular rolls; pure-phase multislice exit waves carry the probe's total intensity for any number of slices/modes, and back-transmitting / back-propagating them through the chain of ObjectPixelated.backward returns the entrance wave (backward_forward_identity); the Fourier magnitude projection is idempotent and returns exactly the measured amplitudes (single state everywhere incl. exactly vanishing Fourier coefficients, mixed state wherever the current far field is non-zero); reset_recon restores the object constraints after every history of accepted / rejected (partially written) constraint updates, and the class-level defaults never change (reset_restores_defaults, defaults_never_change, rejected_add_is_noop, reset_modulus_neutral). Every run ties the model to the code by exact integer streams (gather/scatter, integer shifts, call histories with raising calls, constraint-dictionary sessions) and float streams (translation operator, shift, propagators, propagation, multislice overlap, backward chain, detector, estimate_amplitudes/intensities, projection) and evaluates the identities on the real functions, on real Ptychography instances, over call histories with kept results, raising calls, in-place updated argument objects and reset/configure/reset sessions.",
-    "note": "Trusted: Lean kernel + propext/Classical.choice/Quot.sound; torch/NumPy FFT assumed to compute the defining sums (exercised by every float case); IEEE rounding outside the theorems (measured: float32 fftfreq/complex64 propagators limit translation/propagation identities to ~1e-6, 5e-4 rule). Mixed-state exactness is undecidable at pixels whose current far field is exactly zero (code defines the output as 0 there); for a constant mixed-state exit wave idempotence is evaluated in the far field at the other pixels (the operator is discontinuous at far field = 0 and rounding refills exact zeros). Real-valued inputs of fourier_shift_expand (the `.real` branch) are covered by correspondence only - the property quantifies over complex arrays. Measured only: that modulus-neutral constraints (the gates of apply_hard_constraints, modelled as a predicate on the constraint dictionary) give unit-modulus patches - apply_hard_constraints itself belongs to C10's model; absence of hidden state / aliasing in the real code (history, rhist, session streams). Formula code is tied by correspondence + independent oracles, not by mechanical translation.",
+    "text": "Lean 4 theorems over an executable model (generic numeric carrier, defining DFT sums) of the ptychography forward-model operators: index_add scatter is the exact adjoint of patch gathering for every index list (repeats, wrap) - also for the model WITH torch's argument checks and the partial writes of index_add_ before an IndexError, in every history of accepted and rejected calls (adjoint_checked, adjoint_history, rejected_calls_erasable, scatter_checked_ok_iff); phase ramps and Fresnel kernels have unit modulus, compose additively and invert; Fourier shift and propagation preserve total intensity (Parseval for the modelled DFT, proved from root-of-unity orthogonality); integer shifts equal circular rolls; pure-phase multislice exit waves carry the probe's total intensity for any number of slices/modes, and back-transmitting / back-propagating them through the chain of ObjectPixelated.backward returns the entrance wave (backward_forward_identity); the Fourier magnitude projection is idempotent and returns exactly the measured amplitudes (single state everywhere incl. exactly vanishing Fourier coefficients, mixed state wherever the current far field is non-zero); reset_recon restores the object constraints after every history of accepted / rejected (partially written) constraint updates, and the class-level defaults never change (reset_restores_defaults, defaults_never_change, rejected_add_is_noop, reset_modulus_neutral). Every run ties the model to the code by exact integer streams (gather/scatter, integer shifts, call histories with raising calls, constraint-dictionary sessions) and float streams (translation operator, shift, propagators, propagation, multislice overlap, backward chain, detector, estimate_amplitudes/intensities, projection) and evaluates the identities on the real functions, on real Ptychography instances, over call histories with kept results, raising calls, in-place updated argument objects and reset/configure/reset sessions. Growth 6 (Props/C16Ext.lean, Model/PtychoOpsExt2.lean): propagator STACKS - every gap of a stack carries the single-gap kernel of its own thickness (stack_gap_eq_single, stack_gap_indep_of_stack), a run through a stack of arbitrary thicknesses is one propagation by their sum (stack_compose), preserves the intensity (stack_energy), does not depend on the order of the gaps (stack_perm), may be cut / merged anywhere (stack_append, stack_merge_block), is the identity when the thicknesses sum to zero ([d,-d]: stack_inverse, stack_d_minus_d), and IS the modelled overlap_projection through vacuum slices (overlap_vacuum_eq_stack, overlap_vacuum_compose); integer shifts compose to the roll by the sum and are periodic in each axis length separately (shift_int_compose, shift_int_periodic); expand_dim / dtype of the translation operator never change a value (translation_opt_values / _axes / _unit_add). Streams `stack` (genuine multislice Ptychography instances through the public API: kernels per gap, refresh after slice_thicknesses / tilt changes, learn_probe_tilt branch, two instances alive, >= 2 modes with >= 2 slices) and `geom` (non-square shapes both ways, shifts negative or >= axis length, patch windows wrapping at the last row / column, several sum_patches results alive, option combinations, call sequences with changing shape).",
+    "note": "Trusted: Lean kernel + propext/Classical.choice/Quot.sound; torch/NumPy FFT assumed to compute the defining sums (exercised by every float case); IEEE rounding outside the theorems (measured: float32 fftfreq/complex64 propagators limit translation/propagation identities to ~1e-6, 5e-4 rule). Mixed-state exactness is undecidable at pixels whose current far field is exactly zero (code defines the output as 0 there); for a constant mixed-state exit wave idempotence is evaluated in the far field at the other pixels (the operator is discontinuous at far field = 0 and rounding refills exact zeros). Real-valued inputs of fourier_shift_expand (the `.real` branch) are covered by correspondence only - the property quantifies over complex arrays. Measured only: that modulus-neutral constraints (the gates of apply_hard_constraints, modelled as a predicate on the constraint dictionary) give unit-modulus patches - apply_hard_constraints itself belongs to C10's model; absence of hidden state / aliasing in the real code (history, rhist, session streams). Formula code is tied by correspondence + independent oracles, not by mechanical translation. Growth 6: that the instance's kernels follow its CURRENT thicknesses / tilt (setter refresh, learn_probe_tilt branch) is measured by the `stack` stream on real instances, not proved (the Lean model is heap-free); the dtype= option is modelled as a value-preserving cast (its rounding is outside the theorems).",
     "technique": "Lean 4 proof (Finset sum rearrangement, roots of unity, induction on slices / call histories / constraint sessions) + model-vs-implementation correspondence",
 }
 RULE = ("a case is one generated input (or call history / session) pushed through the real operator(s) and the model; distinct non-trivial = distinct "
         "(stream, row parity, col parity, square?, #modes, #slices, index kind / shift kind / amplitude kind / value class / history kinds / session op sequence) "
-        "with at least 1x1 pixels or a non-empty index list; the fixed blocks (proj 36, rhist 24, session 60 cases) are the same for every seed")
+        "with at least 1x1 pixels or a non-empty index list; the fixed blocks (proj 36, rhist 24, session 60, stack 6, geom 7 cases) are the same for every seed")
 TRUSTED = ["torch.fft / numpy.fft compute the defining DFT sums; torch index_add_ (sequential accumulation, IndexError at the first index outside [0,n) after partial writes, RuntimeError on a length mismatch) and advanced indexing (negative indices wrap once) - modelled, sampled",
            "fourier_translation_operator evaluates `-2j*pi*fftfreq` in float32/complex64 even for float64 positions, propagators are complex64: integer-shift = roll and the propagation identities hold to float32 accuracy only (5e-4 rule; measured ~4e-6, values in `measured`)",
            "Python dict semantics of the constraint dictionaries (insertion order, key-by-key writes, KeyError after partial writes) - modelled, sampled by the session stream"]
@@ -30,6 +30,7 @@ ASSUMPTIONS = [
     "public signatures / defaults of the anchored operators are pinned (listed parameters in order with their defaults; further parameters with defaults are tolerated)",
     "the `history` stream checks the no-hidden-state contract that the identities presuppose (results never change after they are returned, inputs are not modified, results of different calls do not share storage) by keeping the results of 2-4 same-shaped calls of every operator and re-evaluating the identities on ALL of them; the `rhist` stream does the same across calls that RAISE (index outside the grid after in-range entries, index set of a larger grid, negative index, length / shape mismatch) and across in-place updates of the same argument objects; the heap-free Lean model cannot express aliasing, so this part is measured only",
     "the `session` stream evaluates the energy clause only where the Lean session model says the constraints in force keep the modulus of a pure-phase object (after reset_recon, on a fresh model, or modulus-neutral settings); what a user-set blur / Butterworth filter does to the modulus is not C16's business",
+    "the `stack` stream builds genuine multislice Ptychography objects with the public constructors (ObjectPixelated.from_uniform(num_slices, slice_thicknesses), ProbePixelated.from_array, Ptychography.from_models, preprocess) and reads / writes kernels only through the public `propagators`, `slice_thicknesses`, `compute_propagator_arrays`, `probe_tilt`, `learn_probe_tilt`; negative thicknesses ([d,-d]) exist only at the level of _compute_propagator_arrays / the `propagators` setter (the thickness setter rejects them); a kernel that is not the Fresnel kernel of the gap's CURRENT thickness / tilt is reported as a predicate failure (stack-kernel-current:*): the anchored state 'Fresnel kernels per slice gap' is read as 'of the gap as it is now'",
     "an exception that escapes the real code on a valid input is reported as a predicate failure (key raises:<stream>:<type>) with that input",
     "mixed-state exactness predicate is evaluated only at pixels whose input far field is not exactly zero",
     "negative flat indices: torch indexing wraps them, index_add_ rejects them - modelled (gatherChecked / indexAddSeq) and compared, but outside the stated domain of the adjoint clause",
